@@ -8,8 +8,9 @@ from props import c12, c02
 
 ID = "C13"
 LEVEL = "other"
-LEAN_MODULES = existing_modules(["Sonic.Props.C13", "Sonic.Props.C12"]) + ["Sonic.Spec.Json"]
-REQUIRED_THEOREMS = []
+LEAN_MODULES = ["Sonic.Props.C13", "Sonic.Props.C12"]
+REQUIRED_THEOREMS = ["Sonic.Props.C13." + n for n in ["C13_ledger", "C13_step", "C13_balanced", "C13_copy_independent", "C13_erase", "C13_complete",
+                                                         "C13_foreign_ref_note"]]
 CONFIGS = [("avx2", "san"), ("avx2", "prod"), ("sse", "san")]
 CONFIGS_THOROUGH = CONFIGS + [("dyn", "san"), ("sse", "prod")]
 ENV = {"MALLOC_PERTURB_": "243"}
@@ -23,7 +24,11 @@ EXPLANATION = ("The ledger of the tracking allocator reports foreign frees, doub
                "repeated ParseSchema does not free the previous schema buffer.")
 ASSUMPTIONS = ["std::multimap node allocations go through MapAllocator (seen by the ledger)"]
 TRUSTED = ["harness TrackingAllocator ledger, ASan/LSan"]
-LEVEL_TEXT = "Ledger-model theorems as listed in the evidence + tracking-allocator / LeakSanitizer validation on random histories."
+LEVEL_TEXT = ("Machine-checked (Lean 4) ownership-ledger model on top of the DOM model (every owning payload carries a block id; C13_erase: it "
+              "erases to the C12 model): for every op sequence no foreign/double free, reachable blocks = live blocks and pairwise distinct, "
+              "parse-buffer views point to their own document's live buffer (C13_ledger), nothing live after dom-end (C13_balanced), deep copies "
+              "own only fresh blocks (C13_copy_independent). Partial by nature (the real heap is outside the model) and ParseSchema is outside the "
+              "ledger model (F13 known): level 'other'; validated by the tracking-allocator ledger / LeakSanitizer on random histories.")
 LEVEL_NOTE = "Trusted: Lean kernel; harness ledger; sanitizers."
 TECHNIQUE = "Lean 4 ownership-ledger invariant + tracking-allocator differential runs"
 
